@@ -181,6 +181,24 @@ class SymBool:
     def __invert__(self):
         return SymBool(z3.Not(self.t))
 
+    # arithmetic on a truth value (python: True + 1 == 2) forks on it
+    def __add__(self, o):
+        return int(bool(self)) + o
+    __radd__ = __add__
+
+    def __mul__(self, o):
+        return int(bool(self)) * o
+    __rmul__ = __mul__
+
+    def __sub__(self, o):
+        return int(bool(self)) - o
+
+    def __rsub__(self, o):
+        return o - int(bool(self))
+
+    def __int__(self):
+        return int(bool(self))
+
     def __eq__(self, o):
         return SymBool(self.t == SymBool.term(o))
 
